@@ -362,6 +362,12 @@ def families():
                     declared=True))
     F.append(Family('stv_gregory_droop', 'ranked', lambda: vs.TransferableVoteSelector(transferer='Gregory', quota_function='droop'),
                     scale_free=False, declared=True))
+    # non-default options: strict quota comparison; a quota below Droop, under which more candidates than seats can reach it
+    F.append(Family('stv_gregory_hare_strict', 'ranked',
+                    lambda: vs.TransferableVoteSelector(transferer='Gregory', quota_function='hare', accept_quota_equal=False),
+                    declared=True))
+    F.append(Family('stv_gregory_imperiali', 'ranked',
+                    lambda: vs.TransferableVoteSelector(transferer='Gregory', quota_function='imperiali'), declared=True))
     F.append(Family('stv_dist_gregory_droop', 'ranked',
                     lambda: vs.TransferableVoteDistributor(transferer='Gregory', quota_function='droop'),
                     kind='dist', scale_free=False, declared=True))
